@@ -91,6 +91,34 @@ func genC08(seed uint64, run int, tier string) Scenario {
 			sc.Ops = append(sc.Ops, NCOp{Kind: "idle", IdleUS: sc.TimeoutOpsUS * int64(between(r, 1, 20)) / 10})
 		}
 	}
+	if sc.Server.Echo && !long && r.IntN(4) == 0 {
+		// one request a few bytes longer than a multiple of 4 096 (a client that sends long
+		// messages in several chunks cuts its own end tag there), echoed like everything else
+		nreq := 0
+		for _, o := range sc.Ops {
+			if o.Kind != "idle" {
+				nreq++
+			}
+		}
+		op := NCOp{Kind: "editconfig", A: "running", B: "<config><pad></pad></config>"}
+		base := len(xmlDecl) + len(wantXML(&op, fmt.Sprint(101+nreq)))
+		target := 4096*between(r, 1, 3) + between(r, 1, 5)
+		for target < base {
+			target += 4096
+		}
+		op.B = "<config><pad>" + strings.Repeat("p", target-base) + "</pad></config>"
+		sc.Ops = append(sc.Ops, op)
+		rep := peer.NCReply{Mode: "now", Payload: `<rpc-reply xmlns="urn:ietf:params:xml:ns:netconf:base:1.0" message-id="{MID}"><ok/></rpc-reply>`}
+		if ver == "1.1" {
+			rep.Chunks = genChunks(r, rep.Payload)
+		}
+		sc.Server.Replies = append(sc.Server.Replies, rep)
+		if sc.ReadSize < 1024 {
+			sc.ReadSize = 1024
+		}
+		sc.TimeoutOpsUS = sc.ReadDelayUS * 4000
+		n++
+	}
 	sc.Ops = append(sc.Ops, NCOp{Kind: "close"})
 	sc.Class = "pairing/" + ver
 	if !cutBase && !long && r.IntN(8) == 0 {
